@@ -57,6 +57,7 @@ BigOk(ev) == /\ ev.rc1 = 0 /\ ev.rc2 = 0 /\ ev.lenHigh >= 1
              /\ ev.oneshot = ev.streamed
              /\ ev.truncated = Hash([i \in 1..ev.lenLow |-> 0], 32, <<>>)
              /\ ev.oneshot # ev.truncated
+             /\ ("commit" \in DOMAIN ev => ev.commit = ev.commitStreamed)      \* the commitment of the long input = Hash256(input || hash), streamed
 
 \* a digest or key length of outHigh * 2^32 + outLow with a non-zero high word is out of range whatever its low part is: the one-shot
 \* call and init / init_key fail and nothing is written
